@@ -405,6 +405,8 @@ def container_flag_in_element_loop(repo, modules, attrs=("wrap",)):
                 cont, child = lp.iter.value.id, lp.target.id
                 if cont in ("self",):
                     continue
+                if cont == child:
+                    continue   # `for node in node.enums`: inside the loop the name is the child
                 aliases = {}
                 for st in ast.walk(lp):
                     if isinstance(st, ast.Assign) and len(st.targets) == 1 and isinstance(st.targets[0], ast.Name) \
@@ -952,4 +954,51 @@ def undefined_names(repo, modules):
                     out.append((mn, q, node, "`%s` is read here but bound nowhere (not a local, not a name of the module, "
                                 "not a builtin): the statement raises NameError as soon as an input reaches it" % name))
         walk(top)
+    return out, n
+
+
+def memo_scope_owner_mismatch(repo, modules):
+    """`table.setdefault(key, Scope(parent))` keeps the first scope ever stored under the key.  When the table
+    belongs to one node (`C_node._fmtargs`) and the parent scope to another (`fmt_func = node.fmtdict`), every later
+    caller with a different `node` gets the first caller's scope: its parent chain and every field that is only set
+    under a condition.  Owners are followed through plain assignments inside the function; two names are the same
+    owner only when one is nothing but an alias of the other."""
+    out, n = [], 0
+    for mn in modules:
+        m = repo.module(mn)
+        for q, fn in m.functions().items():
+            assigns = {}
+            for a in ast.walk(fn):
+                if isinstance(a, ast.Assign) and len(a.targets) == 1 and isinstance(a.targets[0], ast.Name):
+                    assigns.setdefault(a.targets[0].id, []).append(a.value)
+
+            params = set(a.arg for a in fn.args.args)
+
+            def owner(expr, depth=0, via_attr=False):
+                """the node object an expression hangs off (`C_node._fmtargs` -> C_node), or None when the expression
+                was not reached through an attribute of a name (a parameter that already is a scope: owner unknown)"""
+                while isinstance(expr, (ast.Attribute, ast.Subscript)):
+                    via_attr = via_attr or isinstance(expr, ast.Attribute)
+                    expr = expr.value
+                if isinstance(expr, ast.Call) and isinstance(expr.func, ast.Attribute) and expr.func.attr in ("setdefault", "get"):
+                    return owner(expr.func.value, depth, via_attr)
+                if isinstance(expr, ast.Name):
+                    vals = assigns.get(expr.id, [])
+                    if len(vals) == 1 and depth < 6 and expr.id not in params:
+                        return owner(vals[0], depth + 1, via_attr)
+                    return expr.id if via_attr else None
+                return None
+            for c in ast.walk(fn):
+                if not (isinstance(c, ast.Call) and isinstance(c.func, ast.Attribute) and c.func.attr == "setdefault" and len(c.args) == 2):
+                    continue
+                v = c.args[1]
+                if not (isinstance(v, ast.Call) and (ast.unparse(v.func).endswith("Scope")) and v.args):
+                    continue
+                n += 1
+                o1, o2 = owner(c.func.value), owner(v.args[0])
+                if o1 and o2 and o1 != o2 and o1 not in ("self",) and o2 not in ("self",):
+                    out.append((mn, q, c, "the table belongs to `%s` and the scope stored in it with setdefault is parented to `%s`: "
+                                "every wrapper that shares the same %s after the first one reuses the first one's scope - its parent "
+                                "chain and every field that is only set under a condition (rank, size, f_assumed_shape of the "
+                                "previous fortran_generic variant)" % (o1, o2, o1)))
     return out, n
